@@ -477,6 +477,15 @@ def run(chk):
                 if rp.ok:
                     chk.assumptions.append("C18Partial.v: %d theorems 'Closed under the global context'" % rp.out.count("Closed under the global context"))
                 failed.append(("proof", bad or "C18.v", r.text[-1200:]))
+            if compiled and not quick:
+                try:
+                    cp_ = subprocess.run(["timeout", "900", "coqchk", "-silent", "-o", *V.COQ_ARGS, "Props.C18"], capture_output=True, text=True)
+                    okc = cp_.returncode == 0 and re.search(r"Axioms:\s*<none>", cp_.stdout + cp_.stderr) is not None
+                    chk.obligation("coqchk:Props.C18", okc, (cp_.stdout + cp_.stderr)[-300:].replace("\n", " "))
+                    if not okc:
+                        failed.append(("coqchk", "Props.C18", (cp_.stdout + cp_.stderr)[-800:]))
+                except Exception as ex:      # noqa: BLE001
+                    chk.obligation("coqchk:Props.C18", False, repr(ex))
             if refuted and compiled:
                 rf = os.path.join(V.PROPS_OUT, "C18Refuted.v")
                 V.write_if_changed(rf, "(* generated: one refutation of the FULL statement per recorded finding, by computation on the recorded witness *)\n"
